@@ -41,6 +41,8 @@ sys.path.insert(0, os.path.dirname(os.path.dirname(os.path.abspath(__file__))))
 import common
 import h4_support as h4
 import h4_round5 as r5
+import h4_round7 as r7
+from gen import srcdict
 
 ID = "C08"
 TRUSTED = [
@@ -367,6 +369,13 @@ def gen_spec(rnd, pairs=False, nfiles=None):
             path += ([0x2F] if i else []) + p
         if not pairs:
             path = break_pairs(path)
+        if files and not pairs and rnd.random() < 0.1:     # CASE TWIN of an earlier file's path
+            try:
+                tw = r7.case_twin(from_cps(rnd.choice(files)[0]), rnd)
+            except Exception:   # noqa: BLE001
+                tw = None
+            if tw is not None:
+                path = break_pairs(cps(tw))
         if tuple(path) in seen:
             continue
         seen.add(tuple(path))
@@ -419,6 +428,55 @@ def gen_shaped_spec(rnd):
         files.append((path, checksum, language, loc, ms))
     spec["files"] = files
     return spec
+
+
+DERIVED_FIELDS = 13
+
+
+def derived_pool(ctx):
+    try:
+        ws = sorted(set(srcdict.words(False)) | set(srcdict.words(novel_only=True)))
+    except Exception:   # noqa: BLE001
+        ws = []
+    ws = ws or [".git", "/", "."]
+    return r7.derived_strings(ws, ctx.pick(("x", "\u00e9"), ("x", "\u00e9", "a/b", " ", "X")))
+
+
+def derived_spec(pool, k):
+    """report number k of the sweep: string field j holds pool[(k + 37 j) mod N] - over k = 0..N-1 every derived string visits
+    every string field (root, uuid, timestamp, version, repository owner / name / branch / tag, file name, checksum, language, unit name)"""
+    n = len(pool)
+    stride = 37
+    while n % stride == 0:
+        stride += 1
+    g = [break_pairs(cps(pool[(k + j * stride) % n])) for j in range(DERIVED_FIELDS)]
+    stem = [c for c in g[0] if c != 0x2F] or [0x78]
+    folder = [c for c in g[1] if c != 0x2F] or [0x78]
+    if folder == [0x2E]:
+        folder = [0x78, 0x2E]
+    files = [(folder + [0x2F] + stem + cps(".py"), g[2], g[3], 40, [(g[4], 1, 0, 41, 0, 40)])]
+    return {"root": g[5], "files": files, "repository": (g[6], g[7], g[8], g[9]), "version": g[10], "uuid": g[11], "timestamp": g[12]}
+
+
+def shrink_derived(spec, failing):
+    """replace field after field by `a` (repository fields, root, uuid, version, timestamp; then drop the file) while it still fails"""
+    cur = dict(spec)
+    a = cps("a")
+    for fld in ("root", "uuid", "timestamp", "version"):
+        c = dict(cur, **{fld: a})
+        if failing(c):
+            cur = c
+    c = dict(cur, files=[])
+    if failing(c):
+        cur = c
+    if cur["repository"] is not None:
+        for i in range(4):
+            r = list(cur["repository"])
+            r[i] = a
+            c = dict(cur, repository=tuple(r))
+            if failing(c):
+                cur = c
+    return cur
 
 
 VERSION_STATES = ["default", None, "", "0.9.3", "running-with-suffix", "random"]
@@ -1074,6 +1132,24 @@ def correspond(ctx):
                 bad = oracle_report(spec, probes=False) or bad
             fails.append({"input": {"stream": "report", "spec": spec, "shape": sh, "also_in": other}, "observed": bad,
                           "required": "valid JSON in both forms, same value, lossless read-back, stable rewrite"})
+    # ---- DERIVED STRINGS: every string literal of the source tree under check (pinned and novel) as w, w+w, x+w, w+x, x+w+w, w+x+w,
+    # w+w+x in EVERY string field of a small report with a repository (a prefix / suffix normalisation applied at construction
+    # and again on read is the identity on w and on x+w, not on x+w+w), oracle only
+    derived = derived_pool(ctx)
+    dist["derived_strings"] = len(derived)
+    n_der = 0
+    for k in range(len(derived)):
+        spec = derived_spec(derived, k)
+        evals += 1
+        n_der += 1
+        bad = oracle_report(spec, probes=False)
+        if bad:
+            if sum(1 for f in fails if f["input"].get("derived")) < 3:
+                spec = shrink_derived(spec, lambda c: bool(oracle_report(c, probes=False)))
+                bad = oracle_report(spec, probes=False) or bad
+            fails.append({"input": {"stream": "report", "spec": spec, "derived": True}, "observed": bad,
+                          "required": "valid JSON in both forms, same value, lossless read-back, stable rewrite"})
+    dist["derived_string_reports"] = n_der
     # ---- size ladders: the property directly (oracle incl. the second-read probe), failing inputs shrunk
     dist["ladder"] = {}
     for label, spec in ladder_specs(ctx):
@@ -1176,7 +1252,11 @@ def correspond(ctx):
                 "(canonical / upper-case / braced / urn: / bare-hex UUIDs, digests, numbers, versions, dates, refs, whitespace around, novel source literals) as uuid "
                 "and in one other string field through the oracle; duplicated members: " + str(sum(dist.get("duplicated_members", {}).values())) + " reports through all comparisons in which a "
                 "measurement occurs several times in a file (adjacent, apart, three times, first and last, whole list twice, same list in two files, all equal, "
-                "near-duplicates differing in one component) x version state (running, absent, empty, another release, running + suffix, arbitrary); non-trivial = documents with >= 1 file and "
+                "near-duplicates differing in one component) x version state (running, absent, empty, another release, running + suffix, arbitrary); "
+                "round 7: derived strings - every string literal of the source tree under check as w, w+w, x+w, w+x, x+w+w, w+x+w, w+w+x (x = `x`, `\u00e9`; thorough "
+                "also `a/b`, a blank, `X`): " + str(dist.get("derived_strings", 0)) + " strings, each visiting EVERY string field (root, uuid, timestamp, version, repository owner / name / "
+                "branch / tag, folder and file name, checksum, language, unit name) of a one-file report with a repository, through the oracle; case twins: a tenth of "
+                "the files of a generated report get a path that differs from an earlier file's only in letter case; non-trivial = documents with >= 1 file and "
                 "distinct accepted non-document texts") % dist["reports"],
         "samples": samples, "exhaustive": False, "distribution": dist,
         "disagreements": dis[:50], "oracle_failures": fails[:50],
